@@ -13,12 +13,21 @@ from ..core import run_section
 MODULE = 'KdVerif.Props.C16'
 NAMESPACE = 'KdVerif.C16'
 TRUSTED = [
+    'translator tools/gen_pyir_ol.py (pure ast): source text of OsLogEvent.parse_trace_identifier / parse_decomposed / '
+    'parse_decomposed_segment and of the dataclass TraceIdentifier -> Python-subset IR (Gen/PyIROl), with its normal form '
+    '(locals numbered by first binding, aliases of parameter[\'k\'] inlined under a checked exactness condition, '
+    '`v[k] = e` only on dicts the local owns); the big-step interpreter of Model/PyIROl over the model\'s own plist values '
+    '— both CHECKED against the real code by the mirror sections `*-ir` of this module; primitives whose meaning is not '
+    'translated: firehose_tracepoint_id.parse(Int64ul.build(x)) (reflected layout + model bit order), EnumClass(x) '
+    '(reflected class), the contents of tracepoint_types / tracepoint_flags (reflected, tied to the dict displays by '
+    'module_dicts_as_written)',
     'translator gen_oslog: AST of OsLogEvent.from_raw_log_event -> ordered (key, field, transform, required) chain; '
     'reflection of dataclasses.fields(OsLogEvent), tracepoint_types/tracepoint_flags, enum classes, the construct '
     'layout of firehose_tracepoint_id (subcons: names, sizes, order) and the Int64ul word size',
-    'hand model of the control logic (Model/OsLog.lean: chain interpreter, dataclass constructor, parse_decomposed, '
-    'parse_decomposed_segment, parse_trace_identifier, construct Struct/BitStruct MSB-first bit order, dict/`in`/'
-    'subscript protocol on plist values) tied by the correspondence sections of this module',
+    'hand model (Model/OsLog.lean): chain interpreter, dataclass constructor, construct Struct/BitStruct MSB-first bit '
+    'order, dict/`in`/subscript protocol on plist values — tied by the correspondence sections of this module; its '
+    'parse_decomposed, parse_decomposed_segment and parse_trace_identifier are additionally PROVED equal to the interpreted '
+    'source text (parse_*_ir_eq_model)',
     'unix_date: the model is the exact instant sec + usec/10^6; the implementation adds in binary floating point and '
     'datetime.fromtimestamp rounds half-even to microseconds — agreement for 0 <= sec < 2^32, 0 <= usec < 10^6 is '
     'CHECKED by the sections `timestamp` and `event-*`, not proved (Lean Float rounding is opaque to the kernel)',
@@ -1099,7 +1108,55 @@ def retained_section(rep, rng, tier, events, words):
             sec['distinct_nontrivial'] += 1
 
 
+MIRROR = {'oslog-dm': 'oslog-dm-ir', 'traceid': 'traceid-ir', 'oslog': 'oslog-ir'}
+
+
+def translation_tie(rep):
+    """Checks `source_is_expected_ir` through the driver (the build reports it too, with less detail) and switches the
+    `*-ir` mirror sections on: every section driven by `oslog-dm` / `traceid` / `oslog` is driven a second time through the
+    methods GENERATED from os_log_event.py and compared with the same answers of the real code."""
+    ans = core.drive(['olircheck'])[0]
+    if ans == 'same':
+        rep.notes.append('translation tie: Gen/PyIROl (from os_log_event.py: parse_trace_identifier, parse_decomposed, '
+                         'parse_decomposed_segment) = Spec/PyIROlExpected')
+    else:
+        rep.broken.append('theorem source_is_expected_ir: the IR that tools/gen_pyir_ol.py translates from the source text of '
+                          'OsLogEvent.parse_trace_identifier / parse_decomposed / parse_decomposed_segment is not the program of '
+                          'Spec/PyIROlExpected that parse_decomposed_ir_eq_model / parse_decomposed_segment_ir_eq_model / '
+                          'parse_trace_identifier_ir_eq_model are proved for (%s)' % ans)
+    rep.mirror = dict(MIRROR)
+    return 'unsupported' not in ans
+
+
+def must_raise_decomposed(dm):
+    """Structural reasons for which the format demands that a decomposed message is rejected (written on the raw value,
+    independently of the model): a message without placeholder count / state, a non-zero count without segments, a
+    placeholder without width or precision."""
+    if not isinstance(dm, dict):
+        return None
+    if 'pc' not in dm or 's' not in dm:
+        return 'no placeholder count / state'
+    if not dm['pc']:
+        return None
+    if 'seg' not in dm:
+        return 'a non-zero placeholder count without segments'
+    if isinstance(dm['seg'], list):
+        for seg in dm['seg']:
+            if isinstance(seg, dict) and isinstance(seg.get('p'), dict) and not ('w' in seg['p'] and 'p' in seg['p']):
+                return 'a placeholder without width / precision'
+    return None
+
+
+def oracle_decomposed_malformed(case, got):
+    why = must_raise_decomposed(unwire(copy.deepcopy(case['d'])))
+    if why and got.startswith('ok '):
+        return ('decomposed:malformed-accepted', 'the decomposed message %s (%s) is accepted: %s'
+                % (dumps(case['d'])[:400], why, got[:200]))
+    return None
+
+
 def correspondence(rep, rng, tier):
+    translation_tie(rep)
     ev = event_cases(rng, tier)
     run_section(rep, 'event-subsets', ev, line_event, impl_event, oracle_event,
                 nontrivial_fn=lambda c, got: got.startswith('ok') and bool(c['opt']),
@@ -1141,11 +1198,14 @@ def correspondence(rep, rng, tier):
                      'x category {1,2,other} x availability {3,other}, every subset of lp/p/a (thorough: the full cross '
                      'product), random multi-segment messages; non-trivial = messages with segments',
                 sample_fn=lambda c: {'section': 'decomposed', 'kind': c['kind'], 'message': dumps(c['d'])[:200]})
-    run_section(rep, 'decomposed-malformed', malformed_decomposed_cases(rng, tier), line_dm, impl_decomposed, None,
+    run_section(rep, 'decomposed-malformed', malformed_decomposed_cases(rng, tier), line_dm, impl_decomposed,
+                oracle_decomposed_malformed,
                 nontrivial_fn=lambda c, got: got.startswith('err'),
                 kind_fn=lambda c, got: got[4:] if got.startswith('err') else 'ok',
                 rule='damaged decomposed messages (separate stream): missing keys, indices outside the table, non-dict '
-                     'segments / placeholders / arguments, token lists of other types; same error kind on both sides',
+                     'segments / placeholders / arguments, token lists of other types; same error kind on both sides; a message '
+                     'without count / state, a non-zero count without segments, a placeholder without width / precision must '
+                     'be rejected',
                 sample_fn=lambda c: {'section': 'decomposed-malformed', 'message': dumps(c['d'])[:200]})
     words = traceid_cases(rng, tier)
     for name, key, rule in (
@@ -1223,7 +1283,7 @@ def replay(path):
         'event-malformed': (line_event, impl_event, oracle_event_malformed),
         'event-through-dump': (line_event, impl_dump_event, oracle_dump_event),
         'decomposed': (line_dm, impl_decomposed, oracle_decomposed),
-        'decomposed-malformed': (line_dm, impl_decomposed, None),
+        'decomposed-malformed': (line_dm, impl_decomposed, oracle_decomposed_malformed),
         'traceid-domain': (lambda w: 'traceid %d' % w, impl_traceid, oracle_traceid),
         'traceid-k4': (lambda w: 'traceid %d' % w, impl_traceid, oracle_traceid),
         'traceid-malformed': (lambda w: 'traceid %d' % w, impl_traceid, oracle_traceid),
@@ -1253,9 +1313,19 @@ LEVEL_TEXT = ('Lean theorems over the table-driven model of from_raw_log_event i
               'fields, enum classes, namespace dictionaries and construct layout regenerated from the source on every run: '
               'decode_subset (every subset of the optional keys, by induction on the chain), keys_have_fields / '
               'chain_is_format (reflective), unknown_keys_ignored, segments_in_order / segment_total, traceid_inverse / '
-              'traceid_total on the enum-defined domain; the hand-written control logic is tied to the code by '
-              'differential runs on structured events, decomposed messages and identifier words.')
-LEVEL_NOTE = ('Partial: unix_date is the exact instant in the model; the implementation\'s floating-point step is checked for '
+              'traceid_total on the enum-defined domain.  TRANSLATION TIE: the source text of parse_trace_identifier, '
+              'parse_decomposed and parse_decomposed_segment is translated on every run into a Python-subset IR (Gen/PyIROl); '
+              'source_is_expected_ir pins it to Spec/PyIROlExpected, and parse_decomposed_ir_eq_model / '
+              'parse_decomposed_segment_ir_eq_model / parse_trace_identifier_ir_eq_model prove that the generated methods, run '
+              'by a big-step interpreter over the model\'s plist values, ARE the hand model for every value and string table '
+              '(same result, same exception; no hypothesis), so the theorems above speak about the interpreted source '
+              '(transforms_rest_on_ir); id_tables_coherent / module_dicts_as_written tie the reflected tables the primitives '
+              'use to the names and dict displays of the source.  The chain interpreter, the construct bit order and the '
+              'plist protocol stay tied by differential runs on structured events, decomposed messages and identifier '
+              'words; the `*-ir` sections run the generated IR itself against the real code.')
+LEVEL_NOTE = ('Translation tie: primitives of the IR are the construct parse of the identifier word, Enum(x) and the contents of '
+              'tracepoint_types / tracepoint_flags (reflected).  Partial: unix_date is the exact instant in the model; the implementation\'s floating-point step is checked for '
               'sec < 2^32, not proved.  K4 (namespace trace flags through a non-flag Enum) is excluded from the inverse '
               'theorem\'s domain and witnessed by decide.')
-TECHNIQUE = 'Lean 4 proof over translated tables (AST + reflection) + differential correspondence'
+TECHNIQUE = ('Lean 4 proof over translated tables (AST + reflection) + translation tie (source text -> Python-subset IR, '
+             'interpreter proved equal to the hand model) + differential correspondence')
